@@ -110,6 +110,9 @@ def eval_group(arg):
             elif kind == "truncate":
                 data = open(good, "rb").read()
                 open(arch, "wb").write(data[:max(1, int(len(data) * fault["frac"]))])
+            elif kind == "truncate-bytes":
+                data = open(good, "rb").read()
+                open(arch, "wb").write(data[:max(1, len(data) - fault["cut"])])
             elif kind == "flip":
                 data = bytearray(open(good, "rb").read())
                 pos = 20 + int((len(data) - 40) * fault["frac"])
@@ -256,6 +259,8 @@ def main(tier, n=None):
         faults = [{"kind": "none"}, {"kind": "no-index"}, {"kind": "garbage"}, {"kind": "stale-tmp"}]
         faults += [{"kind": "no-dir", "i": rng.randrange(100)} for _ in range(2)]
         faults += [{"kind": "truncate", "frac": rng.random()} for _ in range(4 if tier == "quick" else 16)]
+        faults += [{"kind": "truncate", "frac": 1.0 - rng.random() * 0.12} for _ in range(6 if tier == "quick" else 24)]   # tail: last member headers, end-of-archive blocks, gzip trailer
+        faults += [{"kind": "truncate-bytes", "cut": c} for c in ([1, 8, 9, 64, 512, 1024, 1536] if tier == "quick" else [1, 2, 4, 8, 9, 16, 64, 128, 511, 512, 513, 1024, 1536, 2048, 4096, 10240])]
         faults += [{"kind": "flip", "frac": rng.random(), "n": rng.choice([1, 1, 3])} for _ in range(3 if tier == "quick" else 12)]
         faults += [{"kind": "dup", "pos": p} for p in ("first", "middle", "last")]
         faults += [{"kind": "preexisting-dir", "i": rng.randrange(100)} for _ in range(2)]
@@ -293,7 +298,7 @@ def main(tier, n=None):
     rep.merge_pool(res, groups)
     rep.evaluations = rep.reach.get("c12_cases", 0)
     rep.distinct = set(rep.extra.get("case_sigs", ()))
-    return rep.finish(required_reach=["c12_restores", "c12_success_checks", "c12_failure_checks", "c12_existing_dir_checks", "c12_fault_crash", "c12_fault_dup", "c12_fault_truncate", "c12_nontrivial"])
+    return rep.finish(required_reach=["c12_restores", "c12_success_checks", "c12_failure_checks", "c12_existing_dir_checks", "c12_fault_crash", "c12_fault_dup", "c12_fault_truncate", "c12_fault_truncate-bytes", "c12_nontrivial"])
 
 
 def replay(path):
